@@ -24,7 +24,7 @@ const prop = "C09"
 
 func TestMain(m *testing.M) {
 	vkit.Rec(prop).SetLevel("exploration",
-		"histories of server rotation calls and node (re-)enrolments in VIRTUAL time (time translation of the stored root timestamps; roots come from the real RotateRootCertificates, node chains from the real AuthorizeNode at that virtual instant, leaf windows mapped through the mint offset of their issuing root): (1) bounded-exhaustive: for zero-skew configurations on a grid of V/6, EVERY sequence of server rotation gaps in {1..R} grid units over a horizon of 2-3 V, for R in {2,4}, against nodes re-enrolling at exactly their bound D=(V-R)/2 in every phase; (2) randomized: configurations over five orders of magnitude with skews, 50-300 events over 5-20 V with jitter, including 'always exactly the bound' and 'late promotion' schedules. Invariants: no trust reset (every change promotes the previous next), a root leaves the set only after its successor has become valid, every node that keeps its cadence holds at every sampled instant a chain that is valid and issued by a root the server currently trusts. Non-trivial = history with >=3 promotions in which some node relies on its second chain at least once; distinct = (configuration, schedule).")
+		"histories of server rotation calls and node (re-)enrolments in VIRTUAL time (time translation of the stored root timestamps; roots come from the real RotateRootCertificates, node chains from the real AuthorizeNode at that virtual instant, leaf windows mapped through the mint offset of their issuing root): (1) bounded-exhaustive: for zero-skew configurations on a grid of V/6, EVERY sequence of server rotation gaps in {1..R} grid units over a horizon of 2-3 V, for R in {2,4}, against nodes re-enrolling at exactly their bound D=(V-R)/2 in every phase; (2) randomized: configurations over five orders of magnitude (10 min .. 4 years) with skews, 50-300 events over 5-20 V with jitter, including 'always exactly the bound' and 'late promotion' schedules. Invariants: no trust reset (every change promotes the previous next), a root leaves the set only after its successor has become valid, every node that keeps its cadence holds at every sampled instant a chain that is valid and issued by a root the server currently trusts. Non-trivial = history with >=3 promotions in which some node relies on its second chain at least once; distinct = (configuration, schedule).")
 	vkit.Rec(prop).Assume("judged class: server gaps <= lifetime (and <= lifetime + not-after skew) minus a margin, node gaps <= (V-R)/2 - 1.5*|not-before skew| minus a margin, which satisfies the statement's cadence bounds under both readings of 'validity span'; schedules in the slivers between the readings are generated and counted but not judged",
 		"instants within 3 s of a window edge are not produced (ties with now cannot be produced with a real clock)")
 	vkit.Main(m)
@@ -289,7 +289,8 @@ func TestProp_RandomSchedules(t *testing.T) {
 	vkit.SetRapidChecks(vkit.N(120))
 	rapid.Check(t, func(t *rapid.T) {
 		r := rand.New(rand.NewSource(rapid.Int64().Draw(t, "seed")))
-		L := logUniform(r, 10*time.Minute, 20*365*24*time.Hour)
+		// lifetimes up to 4 years: 20 validity spans of virtual time must fit a time.Duration (292 years)
+		L := logUniform(r, 10*time.Minute, 4*365*24*time.Hour)
 		cfg := vkit.RootConfig{L: L}
 		switch rapid.SampledFrom([]string{"zero", "default-like", "large"}).Draw(t, "skews") {
 		case "default-like":
@@ -422,7 +423,7 @@ func TestEnum_Grid(t *testing.T) {
 	if vkit.Thorough() {
 		horizon = 15
 	}
-	for _, L := range []time.Duration{6 * time.Hour, 6 * 24 * 365 * time.Hour} {
+	for _, L := range []time.Duration{6 * time.Hour, 3 * 24 * 365 * time.Hour} {
 		unit := L / parts
 		for _, Rg := range []int{2, 4} {
 			Dg := (parts - Rg) / 2 // node gap bound in grid units: (V-R)/2
